@@ -250,13 +250,9 @@ impl Selector {
     }
 
     // register the io request to the timeout list
-    // return the earliest time in ns that the timer can expire
     #[inline]
     #[cfg(feature = "io_timeout")]
-    pub fn add_io_timer(&self, io: &IoData, timeout: Duration) -> u64 {
-        // the timer can't expire earlier than this, the caller uses it to
-        // detect that it was held up past the expiration while arming
-        let deadline = now().saturating_add(timeout.as_nanos() as u64);
+    pub fn add_io_timer(&self, io: &IoData, timeout: Duration) {
         let id = io.fd as usize % self.vec.len();
         // info!("io timeout = {:?}", dur);
         let (h, b_new) = self.vec[id].timer_list.add_timer(timeout, io.timer_data());
@@ -265,6 +261,5 @@ impl Selector {
             self.wakeup(id);
         }
         io.timer.borrow_mut().replace(h);
-        deadline
     }
 }
